@@ -1,0 +1,391 @@
+//go:build verif
+
+package tls
+
+// Verification hooks for property C30 (handshake message / session state codecs).
+// Add-only; built only with -tags verif.
+//
+// Canonical text form of a message value:  name=value;name=value;…  in struct-field order, only
+// fields that are on the wire.  value: bytes/strings lower-case hex ("-" = empty, nil ≡ empty;
+// "~" = nil where nil and empty differ on the wire), integers decimal, bools 0/1, lists joined by
+// "," ("-" = empty, "~" = nil where it matters), struct elements with subfields joined by ":".
+
+import (
+	"encoding/hex"
+	"fmt"
+	"strconv"
+	"strings"
+)
+
+type zvFields map[string]string
+
+func zvParseFields(s string) zvFields {
+	f := zvFields{}
+	if s == "" || s == "-" {
+		return f
+	}
+	for _, kv := range strings.Split(s, ";") {
+		i := strings.IndexByte(kv, '=')
+		if i < 0 {
+			panic("zv: bad field " + kv)
+		}
+		f[kv[:i]] = kv[i+1:]
+	}
+	return f
+}
+
+func zvUnhex(s string) []byte {
+	if s == "" || s == "-" {
+		return []byte{}
+	}
+	if s == "~" {
+		return nil
+	}
+	b, err := hex.DecodeString(s)
+	if err != nil {
+		panic("zv: bad hex " + s)
+	}
+	return b
+}
+func (f zvFields) bytes(k string) []byte { return zvUnhex(f[k]) }
+func (f zvFields) num(k string) uint64 {
+	v, ok := f[k]
+	if !ok || v == "" {
+		return 0
+	}
+	n, err := strconv.ParseUint(v, 10, 64)
+	if err != nil {
+		panic("zv: bad int " + v)
+	}
+	return n
+}
+func (f zvFields) flag(k string) bool { return f.num(k) != 0 }
+func (f zvFields) list(k string) []string {
+	v := f[k]
+	if v == "" || v == "-" || v == "~" {
+		return nil
+	}
+	return strings.Split(v, ",")
+}
+func (f zvFields) byteList(k string) [][]byte {
+	if v, ok := f[k]; !ok || v == "~" {
+		return nil
+	}
+	out := [][]byte{}
+	for _, e := range f.list(k) {
+		out = append(out, zvUnhex(e))
+	}
+	return out
+}
+func (f zvFields) u16List(k string) []uint16 {
+	var out []uint16
+	for _, e := range f.list(k) {
+		n, err := strconv.ParseUint(e, 10, 16)
+		if err != nil {
+			panic("zv: bad u16 " + e)
+		}
+		out = append(out, uint16(n))
+	}
+	return out
+}
+func (f zvFields) sigList(k string) []SignatureScheme {
+	var out []SignatureScheme
+	for _, v := range f.u16List(k) {
+		out = append(out, SignatureScheme(v))
+	}
+	return out
+}
+
+func zvHex(b []byte) string {
+	if len(b) == 0 {
+		return "-"
+	}
+	return hex.EncodeToString(b)
+}
+func zvHexNil(b []byte) string {
+	if b == nil {
+		return "~"
+	}
+	return zvHex(b)
+}
+func zvBool(b bool) string {
+	if b {
+		return "1"
+	}
+	return "0"
+}
+func zvByteList(l [][]byte) string {
+	if len(l) == 0 {
+		return "-"
+	}
+	s := make([]string, len(l))
+	for i, e := range l {
+		s[i] = zvHex(e)
+	}
+	return strings.Join(s, ",")
+}
+func zvByteListNil(l [][]byte) string {
+	if l == nil {
+		return "~"
+	}
+	return zvByteList(l)
+}
+func zvU16List(l []uint16) string {
+	if len(l) == 0 {
+		return "-"
+	}
+	s := make([]string, len(l))
+	for i, e := range l {
+		s[i] = strconv.Itoa(int(e))
+	}
+	return strings.Join(s, ",")
+}
+func zvSigList(l []SignatureScheme) string {
+	u := make([]uint16, len(l))
+	for i, e := range l {
+		u[i] = uint16(e)
+	}
+	return zvU16List(u)
+}
+func zvStrList(l []string) string {
+	if len(l) == 0 {
+		return "-"
+	}
+	s := make([]string, len(l))
+	for i, e := range l {
+		s[i] = zvHex([]byte(e))
+	}
+	return strings.Join(s, ",")
+}
+
+type zvMsg interface {
+	marshal() []byte
+	unmarshal([]byte) bool
+}
+
+func zvCertFromFields(f zvFields) Certificate {
+	return Certificate{Certificate: f.byteList("certificates"), OCSPStaple: f.bytesNil("ocspStaple"), SignedCertificateTimestamps: f.byteList("sctList")}
+}
+func (f zvFields) bytesNil(k string) []byte {
+	v, ok := f[k]
+	if !ok || v == "~" {
+		return nil
+	}
+	return zvUnhex(v)
+}
+func zvDumpCert(c Certificate) string {
+	return fmt.Sprintf("certificates=%s;ocspStaple=%s;sctList=%s", zvByteList(c.Certificate), zvHexNil(c.OCSPStaple), zvByteListNil(c.SignedCertificateTimestamps))
+}
+
+// zvBuild constructs the message value of the given kind from canonical fields.
+func zvBuild(kind string, f zvFields) zvMsg {
+	switch kind {
+	case "finished":
+		return &finishedMsg{verifyData: f.bytes("verifyData")}
+	case "certificate":
+		return &certificateMsg{certificates: f.byteList("certificates")}
+	case "serverHelloDone":
+		return &serverHelloDoneMsg{}
+	case "helloRequest":
+		return &helloRequestMsg{}
+	case "endOfEarlyData":
+		return &endOfEarlyDataMsg{}
+	case "clientKeyExchange":
+		return &clientKeyExchangeMsg{ciphertext: f.bytes("ciphertext")}
+	case "serverKeyExchange":
+		return &serverKeyExchangeMsg{key: f.bytes("key")}
+	case "certificateStatus":
+		return &certificateStatusMsg{response: f.bytes("response")}
+	case "newSessionTicket":
+		return &newSessionTicketMsg{ticket: f.bytes("ticket"), lifetimeHint: uint32(f.num("lifetimeHint"))}
+	case "certificateRequest":
+		return &certificateRequestMsg{hasSignatureAlgorithm: f.flag("hasSignatureAlgorithm"), certificateTypes: f.bytes("certificateTypes"),
+			supportedSignatureAlgorithms: f.sigList("supportedSignatureAlgorithms"), certificateAuthorities: f.byteList("certificateAuthorities")}
+	case "certificateVerify":
+		return &certificateVerifyMsg{hasSignatureAlgorithm: f.flag("hasSignatureAlgorithm"), signatureAlgorithm: SignatureScheme(f.num("signatureAlgorithm")), signature: f.bytes("signature")}
+	case "sessionState":
+		return &sessionState{vers: uint16(f.num("vers")), cipherSuite: uint16(f.num("cipherSuite")), createdAt: f.num("createdAt"),
+			masterSecret: f.bytes("masterSecret"), certificates: f.byteList("certificates")}
+	case "sessionStateTLS13":
+		return &sessionStateTLS13{cipherSuite: uint16(f.num("cipherSuite")), createdAt: f.num("createdAt"),
+			resumptionSecret: f.bytes("resumptionSecret"), certificate: zvCertFromFields(f)}
+	case "encryptedExtensions":
+		return &encryptedExtensionsMsg{alpnProtocol: string(f.bytes("alpnProtocol"))}
+	case "keyUpdate":
+		return &keyUpdateMsg{updateRequested: f.flag("updateRequested")}
+	case "newSessionTicketTLS13":
+		return &newSessionTicketMsgTLS13{lifetime: uint32(f.num("lifetime")), ageAdd: uint32(f.num("ageAdd")), nonce: f.bytes("nonce"),
+			label: f.bytes("label"), maxEarlyData: uint32(f.num("maxEarlyData"))}
+	case "certificateRequestTLS13":
+		return &certificateRequestMsgTLS13{ocspStapling: f.flag("ocspStapling"), scts: f.flag("scts"),
+			supportedSignatureAlgorithms: f.sigList("supportedSignatureAlgorithms"), supportedSignatureAlgorithmsCert: f.sigList("supportedSignatureAlgorithmsCert"),
+			certificateAuthorities: f.byteList("certificateAuthorities")}
+	case "certificateTLS13":
+		return &certificateMsgTLS13{certificate: zvCertFromFields(f), ocspStapling: f.flag("ocspStapling"), scts: f.flag("scts")}
+	case "serverHello":
+		m := &serverHelloMsg{vers: uint16(f.num("vers")), random: f.bytes("random"), sessionId: f.bytes("sessionId"),
+			cipherSuite: uint16(f.num("cipherSuite")), compressionMethod: uint8(f.num("compressionMethod")),
+			ocspStapling: f.flag("ocspStapling"), ticketSupported: f.flag("ticketSupported"),
+			secureRenegotiationSupported: f.flag("secureRenegotiationSupported"), secureRenegotiation: f.bytes("secureRenegotiation"),
+			extendedMasterSecret: f.flag("extendedMasterSecret"), alpnProtocol: string(f.bytes("alpnProtocol")), scts: f.byteList("scts"),
+			supportedVersion: uint16(f.num("supportedVersion")), selectedIdentityPresent: f.flag("selectedIdentityPresent"),
+			selectedIdentity: uint16(f.num("selectedIdentity")), supportedPoints: f.bytes("supportedPoints"), cookie: f.bytes("cookie"),
+			selectedGroup: CurveID(f.num("selectedGroup")), unknownExtensions: f.byteList("unknownExtensions")}
+		if ks := f.list("serverShare"); len(ks) == 1 {
+			p := strings.Split(ks[0], ":")
+			g, _ := strconv.Atoi(p[0])
+			m.serverShare = keyShare{group: CurveID(g), data: zvUnhex(p[1])}
+		}
+		return m
+	case "clientHello":
+		m := &clientHelloMsg{vers: uint16(f.num("vers")), random: f.bytes("random"), sessionId: f.bytes("sessionId"),
+			cipherSuites: f.u16List("cipherSuites"), compressionMethods: f.bytes("compressionMethods"), serverName: string(f.bytes("serverName")),
+			ocspStapling: f.flag("ocspStapling"), supportedPoints: f.bytes("supportedPoints"), ticketSupported: f.flag("ticketSupported"),
+			sessionTicket: f.bytes("sessionTicket"), supportedSignatureAlgorithms: f.sigList("supportedSignatureAlgorithms"),
+			supportedSignatureAlgorithmsCert: f.sigList("supportedSignatureAlgorithmsCert"),
+			secureRenegotiationSupported: f.flag("secureRenegotiationSupported"), secureRenegotiation: f.bytes("secureRenegotiation"),
+			extendedRandomEnabled: f.flag("extendedRandomEnabled"), extendedRandom: f.bytes("extendedRandom"),
+			extendedMasterSecret: f.flag("extendedMasterSecret"), scts: f.flag("scts"), supportedVersions: f.u16List("supportedVersions"),
+			cookie: f.bytes("cookie"), earlyData: f.flag("earlyData"), pskModes: f.bytes("pskModes"), pskBinders: f.byteList("pskBinders")}
+		if m.cipherSuites == nil {
+			m.cipherSuites = []uint16{}
+		}
+		for _, c := range f.u16List("supportedCurves") {
+			m.supportedCurves = append(m.supportedCurves, CurveID(c))
+		}
+		for _, p := range f.byteList("alpnProtocols") {
+			m.alpnProtocols = append(m.alpnProtocols, string(p))
+		}
+		for _, ks := range f.list("keyShares") {
+			p := strings.Split(ks, ":")
+			g, _ := strconv.Atoi(p[0])
+			m.keyShares = append(m.keyShares, keyShare{group: CurveID(g), data: zvUnhex(p[1])})
+		}
+		for _, id := range f.list("pskIdentities") {
+			p := strings.Split(id, ":")
+			a, _ := strconv.ParseUint(p[1], 10, 32)
+			m.pskIdentities = append(m.pskIdentities, pskIdentity{label: zvUnhex(p[0]), obfuscatedTicketAge: uint32(a)})
+		}
+		return m
+	}
+	panic("zv: unknown kind " + kind)
+}
+
+// zvDump prints the on-the-wire fields of a message value in canonical form.
+func zvDump(v zvMsg) string {
+	switch m := v.(type) {
+	case *finishedMsg:
+		return "verifyData=" + zvHex(m.verifyData)
+	case *certificateMsg:
+		return "certificates=" + zvByteList(m.certificates)
+	case *serverHelloDoneMsg, *helloRequestMsg, *endOfEarlyDataMsg:
+		return "-"
+	case *clientKeyExchangeMsg:
+		return "ciphertext=" + zvHex(m.ciphertext)
+	case *serverKeyExchangeMsg:
+		return "key=" + zvHex(m.key)
+	case *certificateStatusMsg:
+		return "response=" + zvHex(m.response)
+	case *newSessionTicketMsg:
+		return fmt.Sprintf("ticket=%s;lifetimeHint=%d", zvHex(m.ticket), m.lifetimeHint)
+	case *certificateRequestMsg:
+		return fmt.Sprintf("hasSignatureAlgorithm=%s;certificateTypes=%s;supportedSignatureAlgorithms=%s;certificateAuthorities=%s",
+			zvBool(m.hasSignatureAlgorithm), zvHex(m.certificateTypes), zvSigList(m.supportedSignatureAlgorithms), zvByteList(m.certificateAuthorities))
+	case *certificateVerifyMsg:
+		return fmt.Sprintf("hasSignatureAlgorithm=%s;signatureAlgorithm=%d;signature=%s", zvBool(m.hasSignatureAlgorithm), uint16(m.signatureAlgorithm), zvHex(m.signature))
+	case *sessionState:
+		return fmt.Sprintf("vers=%d;cipherSuite=%d;createdAt=%d;masterSecret=%s;certificates=%s", m.vers, m.cipherSuite, m.createdAt, zvHex(m.masterSecret), zvByteList(m.certificates))
+	case *sessionStateTLS13:
+		return fmt.Sprintf("cipherSuite=%d;createdAt=%d;resumptionSecret=%s;%s", m.cipherSuite, m.createdAt, zvHex(m.resumptionSecret), zvDumpCert(m.certificate))
+	case *encryptedExtensionsMsg:
+		return "alpnProtocol=" + zvHex([]byte(m.alpnProtocol))
+	case *keyUpdateMsg:
+		return "updateRequested=" + zvBool(m.updateRequested)
+	case *newSessionTicketMsgTLS13:
+		return fmt.Sprintf("lifetime=%d;ageAdd=%d;nonce=%s;label=%s;maxEarlyData=%d", m.lifetime, m.ageAdd, zvHex(m.nonce), zvHex(m.label), m.maxEarlyData)
+	case *certificateRequestMsgTLS13:
+		return fmt.Sprintf("ocspStapling=%s;scts=%s;supportedSignatureAlgorithms=%s;supportedSignatureAlgorithmsCert=%s;certificateAuthorities=%s",
+			zvBool(m.ocspStapling), zvBool(m.scts), zvSigList(m.supportedSignatureAlgorithms), zvSigList(m.supportedSignatureAlgorithmsCert), zvByteList(m.certificateAuthorities))
+	case *certificateMsgTLS13:
+		return fmt.Sprintf("%s;ocspStapling=%s;scts=%s", zvDumpCert(m.certificate), zvBool(m.ocspStapling), zvBool(m.scts))
+	case *serverHelloMsg:
+		ks := "-"
+		if m.serverShare.group != 0 || len(m.serverShare.data) != 0 {
+			ks = fmt.Sprintf("%d:%s", uint16(m.serverShare.group), zvHex(m.serverShare.data))
+		}
+		return fmt.Sprintf("vers=%d;random=%s;sessionId=%s;cipherSuite=%d;compressionMethod=%d;ocspStapling=%s;ticketSupported=%s;"+
+			"secureRenegotiationSupported=%s;secureRenegotiation=%s;extendedMasterSecret=%s;alpnProtocol=%s;scts=%s;supportedVersion=%d;"+
+			"serverShare=%s;selectedIdentityPresent=%s;selectedIdentity=%d;supportedPoints=%s;cookie=%s;selectedGroup=%d;unknownExtensions=%s",
+			m.vers, zvHex(m.random), zvHex(m.sessionId), m.cipherSuite, m.compressionMethod, zvBool(m.ocspStapling), zvBool(m.ticketSupported),
+			zvBool(m.secureRenegotiationSupported), zvHex(m.secureRenegotiation), zvBool(m.extendedMasterSecret), zvHex([]byte(m.alpnProtocol)),
+			zvByteList(m.scts), m.supportedVersion, ks, zvBool(m.selectedIdentityPresent), m.selectedIdentity, zvHex(m.supportedPoints),
+			zvHex(m.cookie), uint16(m.selectedGroup), zvByteList(m.unknownExtensions))
+	case *clientHelloMsg:
+		curves := make([]uint16, len(m.supportedCurves))
+		for i, c := range m.supportedCurves {
+			curves[i] = uint16(c)
+		}
+		ks := make([]string, len(m.keyShares))
+		for i, k := range m.keyShares {
+			ks[i] = fmt.Sprintf("%d:%s", uint16(k.group), zvHex(k.data))
+		}
+		ids := make([]string, len(m.pskIdentities))
+		for i, p := range m.pskIdentities {
+			ids[i] = fmt.Sprintf("%s:%d", zvHex(p.label), p.obfuscatedTicketAge)
+		}
+		join := func(l []string) string {
+			if len(l) == 0 {
+				return "-"
+			}
+			return strings.Join(l, ",")
+		}
+		return fmt.Sprintf("vers=%d;random=%s;sessionId=%s;cipherSuites=%s;compressionMethods=%s;serverName=%s;ocspStapling=%s;"+
+			"supportedCurves=%s;supportedPoints=%s;ticketSupported=%s;sessionTicket=%s;supportedSignatureAlgorithms=%s;"+
+			"supportedSignatureAlgorithmsCert=%s;secureRenegotiationSupported=%s;secureRenegotiation=%s;extendedRandomEnabled=%s;"+
+			"extendedRandom=%s;extendedMasterSecret=%s;alpnProtocols=%s;scts=%s;supportedVersions=%s;cookie=%s;keyShares=%s;"+
+			"earlyData=%s;pskModes=%s;pskIdentities=%s;pskBinders=%s",
+			m.vers, zvHex(m.random), zvHex(m.sessionId), zvU16List(m.cipherSuites), zvHex(m.compressionMethods), zvHex([]byte(m.serverName)),
+			zvBool(m.ocspStapling), zvU16List(curves), zvHex(m.supportedPoints), zvBool(m.ticketSupported), zvHex(m.sessionTicket),
+			zvSigList(m.supportedSignatureAlgorithms), zvSigList(m.supportedSignatureAlgorithmsCert), zvBool(m.secureRenegotiationSupported),
+			zvHex(m.secureRenegotiation), zvBool(m.extendedRandomEnabled), zvHex(m.extendedRandom), zvBool(m.extendedMasterSecret),
+			zvStrList(m.alpnProtocols), zvBool(m.scts), zvU16List(m.supportedVersions), zvHex(m.cookie), join(ks), zvBool(m.earlyData),
+			zvHex(m.pskModes), join(ids), zvByteList(m.pskBinders))
+	}
+	panic("zv: unknown message type")
+}
+
+// ZVKinds lists the message kinds the hooks know.
+func ZVKinds() []string {
+	return []string{"finished", "certificate", "serverHelloDone", "helloRequest", "endOfEarlyData", "clientKeyExchange", "serverKeyExchange",
+		"certificateStatus", "newSessionTicket", "certificateRequest", "certificateVerify", "sessionState", "sessionStateTLS13",
+		"encryptedExtensions", "keyUpdate", "newSessionTicketTLS13", "certificateRequestTLS13", "certificateTLS13", "serverHello", "clientHello"}
+}
+
+// ZVNormalize returns the canonical dump of the value described by fields (construct, dump).
+func ZVNormalize(kind, fields string) string { return zvDump(zvBuild(kind, zvParseFields(fields))) }
+
+// ZVMarshal builds the value and runs the real marshal method.
+func ZVMarshal(kind, fields string) []byte {
+	return zvBuild(kind, zvParseFields(fields)).marshal()
+}
+
+// ZVUnmarshal runs the real unmarshal method of the kind on data. params carries the fields that are
+// inputs of unmarshal rather than outputs (hasSignatureAlgorithm).
+func ZVUnmarshal(kind, params string, data []byte) (string, bool) {
+	f := zvParseFields(params)
+	var m zvMsg
+	switch kind {
+	case "certificateRequest":
+		m = &certificateRequestMsg{hasSignatureAlgorithm: f.flag("hasSignatureAlgorithm")}
+	case "certificateVerify":
+		m = &certificateVerifyMsg{hasSignatureAlgorithm: f.flag("hasSignatureAlgorithm")}
+	default:
+		m = zvBuild(kind, zvFields{})
+	}
+	// the parsers alias their input; give them a private copy
+	d := append([]byte{}, data...)
+	if !m.unmarshal(d) {
+		return "", false
+	}
+	return zvDump(m), true
+}
